@@ -121,7 +121,7 @@ func describe(b Batch) string {
 func genReq(t *rapid.T) Req {
 	return Req{
 		Op: rapid.IntRange(0, len(ops)-1).Draw(t, "op"),
-		CT: rapid.SampledFrom([]string{"application/json", "application/x-alt", "application/json", "application/x-alt", "application/json; charset=utf-8", "text/unknown", ""}).Draw(t, "ct"),
+		CT: rapid.SampledFrom([]string{"application/json", "application/x-alt", "application/json", "application/x-alt", "application/json; charset=utf-8", "text/unknown", "", "range", "range"}).Draw(t, "ct"),
 		// only decisive Accept headers: the order of a route's produces list is a map order inside the code under test
 		Accept: rapid.SampledFrom([]string{"application/json", "application/x-alt", "application/x-alt, application/json;q=0.5", "application/json, application/x-alt;q=0.1", "text/unknown"}).Draw(t, "accept"),
 		Cred:   rapid.SampledFrom([]string{"key1", "key2", "both", "bearer", "key1", "key2", "none", "bad1", "bad2", "badbearer", "zero-int", "zero-string", "zero-bool", "zero-struct"}).Draw(t, "cred"),
